@@ -120,7 +120,27 @@ func genWriterCase(s *state) {
 			runOp(s, "w.readfrom "+genItems(r, n))
 		}
 	}
-	if r.Chance(6) {
+	if r.Chance(15) {
+		// a body arriving in many irregular fragments through Write (a caller without ReadFrom
+		// support, io.CopyBuffer with one buffer): sizes straddling the block boundaries
+		frag := []int{1, 7, 100, 16383, 16384, 16385, 40000, 8192, 5, 32767, 32769}
+		left := cnt
+		for i, n := 0, 5+r.Intn(8); i < n; i++ {
+			f := frag[r.Intn(len(frag))]
+			if r.Chance(25) {
+				f = 1 + r.Intn(20000)
+			}
+			if r.Chance(15) {
+				runOp(s, "w.readfrom "+genItems(r, f))
+			} else {
+				runOp(s, fmt.Sprintf("w.write %d", f))
+			}
+			left -= f
+			if left < -40000 {
+				break
+			}
+		}
+	} else if r.Chance(6) {
 		// a piece that stops accepting data, a large Write, then ReadFrom
 		if r.Chance(30) {
 			runOp(s, "s.delete")
